@@ -247,6 +247,12 @@ func RunProg(pc *ProgCase) (out *ProgOutcome) {
 			rep.Created = deployed[tx.ID].Hex()
 		}
 
+		existedAtBegin := map[ethcmn.Address]bool{}
+		for _, a := range u.Addrs() {
+			if rw.DB.Exist(a) {
+				existedAtBegin[a] = true
+			}
+		}
 		aw.BeginTx(thash)
 		rw.BeginTx(thash)
 		rec.resetTx()
@@ -316,22 +322,28 @@ func RunProg(pc *ProgCase) (out *ProgOutcome) {
 				h.DestroyedThisTx[a] = true
 			}
 		}
+		if errR == nil {
+			for a := range existedAtBegin {
+				if !rw.DB.Exist(a) && !h.DestroyedThisTx[a] {
+					h.EmptiedThisTx[a] = true
+				}
+			}
+		}
 		fb := txFallbackContext(pc, tx, tracer)
 		ctx := func() string { return contextFor(h, aw, u, touched, fb) }
 
 		if crash != nil {
 			crash.Context = "apply-" + ctx()
+			if tracer.counts["op/revert"] > 0 || tracer.counts["fault/any"] > 0 {
+				crash.Context = "after-revert"
+			}
 			return fail(i, crash)
 		}
 		out.Counts["cmp/tx-results"]++
 		ca, cr := errClass(errA), errClass(errR)
 		if ca != cr {
-			trait := "adapter-" + ca + "-ref-" + cr
-			c := ctx()
-			if cr == "none" && strings.HasPrefix(ca, "commit-aborted") && (c == "touch-destroyed-same-block") {
-				trait = "later-tx-touching-destroyed-address-fails"
-			}
-			return fail(i, &Divergence{Rule: "error", Context: c, Trait: trait,
+			c := contextForHint(h, aw, u, touched, fb, strings.Contains(ca, "tombstone"))
+			return fail(i, &Divergence{Rule: "error", Context: c, Trait: errorTrait(c, ca, cr),
 				What: fmt.Sprintf("tx %d consensus error: adapter=%v reference=%v", tx.ID, errA, errR)})
 		}
 		ok := errR == nil
